@@ -39,6 +39,7 @@ def run(ctx):
     ctx.rule(threshold_live)
     ctx.rule(fc.gabor_supports, "R-C06-gabor-support", ("freq",))
     ctx.rule(fc.gabor_truncation_support, "R-C06-gabor-support")
+    ctx.rule(fc.gammatone_freq_support, "R-C06-gabor-support")
     ctx.rule(fc.banks_stateless, "R-C06-pure")
 
 
